@@ -132,3 +132,7 @@ def register(PROPS, CLASSIFIERS, REPLAY_RUNNERS):
     for _n in ("stale-queued-after-event", "after-alternatives-fire-once-each", "rollback-leaves-or-duplicates-tasks",
                "stale-queued-done-event"):
         CLASSIFIERS[_n] = _c08cls(_n)
+
+    # ------------------------------------------------------------------ C05: the pure API, modelled (Model/Pure.lean)
+    PROPS["C05"]["q_checks"].append(_lazy("c05pure", "c05_pure_tie"))
+    PROPS["C05"].setdefault("lake_targets", []).append("driver_pure")
